@@ -75,6 +75,15 @@ def main():
     ok = got is not None and not neg and any(g[0] == 'backedge' for g in got)
     print('%-4s %s (%d paths, %d with a refuted filter assumption)' % ('OK' if ok else 'BAD', 'models::filter_loop', len(got or ()), len(neg)))
     bad += not ok
+    # chain_loop: the tag of an item is known on every path through the loop body (true for the once-value, false for mapped ones)
+    b_ = fx.body('models::chain_loop')
+    ps_ = sym.Explorer(fx, b_, Purity(fx)).explore() if b_ is not None else []
+    body = [p for p in ps_ if p.end == 'backedge']
+    kinds = sorted(e['kind'] for p in body for e in p.events if e['k'] == 'item')
+    unknown = [p for p in body if any('.1' in show(noepoch(v)) for (v, c) in p.conds)]
+    ok = len(body) == 2 and kinds == ['map', 'val'] and not unknown
+    print('%-4s %s (%d loop-body paths, item kinds %s, %d branching on an unknown tag)' % ('OK' if ok else 'BAD', 'models::chain_loop', len(body), kinds, len(unknown)))
+    bad += not ok
     print('%d model controls not OK' % bad)
     sys.exit(1 if bad else 0)
 
